@@ -51,8 +51,8 @@ def rewardExec (r : RewardSt) (self : Addr) (tokenAddr dispAddr : Res Addr) (ban
     let all := acc + r.hPend sender
     let rewards := all / D
     if rewards = 0 then throw "No rewards have accrued yet"
-    let nb ← csub r.prevRewardBalance rewards
-    let r1 := { r with prevRewardBalance := nb }
+    if r.prevRewardBalance < rewards then throw "overflow"       -- checked_sub
+    let r1 := { r with prevRewardBalance := r.prevRewardBalance - rewards }
     let r2 := r1.setHolder sender (r.hBal sender) r.globalIndex (all % D)
     pure (r2, [.bankSend self (recipient.getD sender) r.rewardDenom rewards])
   | .updateConfig hub denom swap =>
@@ -78,10 +78,11 @@ def rewardExec (r : RewardSt) (self : Addr) (tokenAddr dispAddr : Res Addr) (ban
     if sender ≠ d then throw "unauthorized"
     if r.totalBalance = 0 then pure (r, [])
     else
-      let bal := bankBal r.rewardDenom
-      let claimed ← csub bal r.prevRewardBalance
-      pure ({ r with prevRewardBalance := bal,
-                     globalIndex := r.globalIndex + fromRatio claimed r.totalBalance }, [])
+      if bankBal r.rewardDenom < r.prevRewardBalance then throw "overflow"     -- checked_sub
+      else
+        pure ({ r with prevRewardBalance := bankBal r.rewardDenom,
+                       globalIndex := r.globalIndex +
+                         fromRatio (bankBal r.rewardDenom - r.prevRewardBalance) r.totalBalance }, [])
   | .increase a amt => do
     let t ← tokenAddr
     if sender ≠ t then throw "unauthorized"
@@ -93,9 +94,9 @@ def rewardExec (r : RewardSt) (self : Addr) (tokenAddr dispAddr : Res Addr) (ban
     if sender ≠ t then throw "unauthorized"
     if r.hBal a < amt then throw "Decrease amount cannot exceed user balance"
     let acc ← r.accrual a
-    let tb ← csub r.totalBalance amt
+    if r.totalBalance < amt then throw "overflow"              -- checked_sub
     let r1 := r.setHolder a (r.hBal a - amt) r.globalIndex (acc + r.hPend a)
-    pure ({ r1 with totalBalance := tb }, [])
+    pure ({ r1 with totalBalance := r.totalBalance - amt }, [])
   | .updateSwapDenom d add =>
     if sender ≠ r.owner then throw "unauthorized"
     else if add then pure ({ r with swapDenoms := r.swapDenoms ++ [d] }, [])
